@@ -253,6 +253,260 @@ CORPUS = [
     N("c18-literal-rewritten", [(GR, "    g=" + _G1024_HEX + ",", "    g=0x1*" + _G1024_HEX + ",")]),
     N("c18-L-shift-form", [(ED, "L = 2**252 + 27742317777372353535851937790883648493", "L = (1 << 252) + 27742317777372353535851937790883648493")]),
     N("c18-group-positional-args", [(GR, "I1024 = IntegerGroup(\n    p=", "I1024 = IntegerGroup(\n    "), ], note="first argument positional"),
+    # ------------------------------------------------------------------ C17 transcript hash
+    B("c17-ids-hashed-jointly", ["C17", "C02"], [(SP, "                           sha256(idA).digest(), sha256(idB).digest(),\n", "                           sha256(idA+idB).digest(),\n")], tests="killed"),
+    B("c17-fields-truncated", ["C17", "C02"], [(SP, "                           X_msg, Y_msg, K_bytes])", "                           X_msg[:64], Y_msg[:64], K_bytes])")]),
+    B("c17-empty-id-dropped", ["C17", "C02"], [(SP, """    transcript = b"".join([sha256(pw).digest(),
+                           sha256(idA).digest(), sha256(idB).digest(),
+                           X_msg, Y_msg, K_bytes])""", """    pieces = [sha256(pw).digest()]
+    if idA or idB:
+        pieces += [sha256(idA).digest(), sha256(idB).digest()]
+    transcript = b"".join(pieces + [X_msg, Y_msg, K_bytes])""")], tests="killed"),
+    B("c17-sorted-by-length", ["C17"], [(SP, "    first_msg, second_msg = sorted([msg1, msg2])", "    first_msg, second_msg = sorted([msg1, msg2], key=len)")],
+      note="messages have equal length, so the sort is a no-op and the transcript depends on argument order"),
+    B("c17-symmetric-not-sorted-when-equal-prefix", ["C17"], [(SP, "    first_msg, second_msg = sorted([msg1, msg2])", "    first_msg, second_msg = (msg1, msg2) if msg1[:1] == msg2[:1] else sorted([msg1, msg2])")],
+      note="order-dependent only when the two messages share their first byte"),
+    B("c17-call-site-swapped-B", ["C17", "C01"], [(SP, "    def X_msg(self): return self.inbound_message\n    def Y_msg(self): return self.outbound_message", "    def X_msg(self): return self.outbound_message\n    def Y_msg(self): return self.inbound_message")], tests="killed"),
+    B("c17-pw-not-hashed-into-transcript", ["C17", "C02"], [(SP, """    first_msg, second_msg = sorted([msg1, msg2])
+    transcript = b"".join([sha256(pw).digest(),""", """    first_msg, second_msg = sorted([msg1, msg2])
+    transcript = b"".join([sha256(b"").digest(),""")], tests="killed"),
+    N("c17-plus-instead-of-join", [(SP, """    transcript = b"".join([sha256(pw).digest(),
+                           sha256(idSymmetric).digest(),
+                           first_msg, second_msg, K_bytes])""", """    transcript = (sha256(pw).digest() + sha256(idSymmetric).digest()
+                  + first_msg + second_msg + K_bytes)""")]),
+    N("c17-min-max-instead-of-sorted", [(SP, "    first_msg, second_msg = sorted([msg1, msg2])", "    first_msg, second_msg = min(msg1, msg2), max(msg1, msg2)")]),
+    N("c17-hashlib-qualified", [(SP, "    key = sha256(transcript).digest()\n    return key\n\ndef finalize_SPAKE2_symmetric", "    import hashlib\n    return hashlib.sha256(transcript).digest()\n\ndef finalize_SPAKE2_symmetric")]),
+    # ------------------------------------------------------------------ C08 persist/restore transparency
+    B("c08-restore-swaps-ids", ["C08"], [(SP, """                     idA=unhexlify(d["idA"].encode("ascii")),
+                     idB=unhexlify(d["idB"].encode("ascii")),""", """                     idA=unhexlify(d["idB"].encode("ascii")),
+                     idB=unhexlify(d["idA"].encode("ascii")),""")], silent=["C07", "C06"]),
+    B("c08-restore-drops-idS", ["C08"], [(SP, """                     idSymmetric=unhexlify(d["idS"].encode("ascii")),
+""", "")]),
+    B("c08-serialize-calls-entropy", ["C08", "C11"], [(SP, """        return json.dumps(self._serialize_to_dict()).encode("ascii")""", """        self.entropy_f(1)
+        return json.dumps(self._serialize_to_dict()).encode("ascii")""")]),
+    B("c08-restore-scalar-off-by-one", ["C08"], [(SP, """        self.xy_scalar = g.bytes_to_scalar(xy_scalar_bytes)
+        self.xy_elem = g.Base.scalarmult(self.xy_scalar)
+        self.compute_outbound_message()
+        return self
+
+
+# applications""", """        self.xy_scalar = g.bytes_to_scalar(xy_scalar_bytes) + 1
+        self.xy_elem = g.Base.scalarmult(self.xy_scalar)
+        self.compute_outbound_message()
+        return self
+
+
+# applications""")], tests="killed"),
+    B("c08-restore-elem-from-stale-scalar", ["C08"], [(SP, """        self.xy_scalar = g.bytes_to_scalar(xy_scalar_bytes)
+        self.xy_elem = g.Base.scalarmult(self.xy_scalar)
+        self.compute_outbound_message()
+        return self
+
+# add ECC""", """        self.xy_scalar = g.bytes_to_scalar(xy_scalar_bytes)
+        self.xy_elem = g.Base.scalarmult(self.xy_scalar % (2**128))
+        self.compute_outbound_message()
+        return self
+
+# add ECC""")], note="symmetric restore: outbound message differs for large scalars only"),
+    B("c08-restore-password-stripped", ["C08"], [(SP, """        self = klass(password=unhexlify(d["password"].encode("ascii")),
+                     idA=""", """        self = klass(password=unhexlify(d["password"].encode("ascii")).rstrip(b"\\0"),
+                     idA=""")], note="passwords ending in NUL restore to a different session"),
+    B("c08-serialize-memoised-on-instance", ["C08", "C07"], [(SP, """        return json.dumps(self._serialize_to_dict()).encode("ascii")""", """        self._blob = json.dumps(self._serialize_to_dict()).encode("ascii")
+        self.xy_scalar = self.xy_scalar + 0
+        return self._blob""")], note="serialize() writes instance fields"),
+    B("c08-serialize-ensure-ascii-false", ["C08"], [(SP, """        return json.dumps(self._serialize_to_dict()).encode("ascii")""", """        return json.dumps(self._serialize_to_dict(), ensure_ascii=False).encode("utf-8")""")]),
+    B("c08-restore-skips-reflection-field", ["C08", "C06"], [(SP, """        self.xy_elem = g.Base.scalarmult(self.xy_scalar)
+        self.compute_outbound_message()
+        return self
+
+
+# applications""", """        self.xy_elem = g.Base.scalarmult(self.xy_scalar)
+        self.compute_outbound_message()
+        self.outbound_message = self.outbound_message[::-1][::-1][:-1] + b"\\0"
+        return self
+
+
+# applications""")], tests="killed"),
+    N("c08-restore-via-fromhex", [(SP, """        self = klass(password=unhexlify(d["password"].encode("ascii")),
+                     idA=""", """        self = klass(password=bytes.fromhex(d["password"]),
+                     idA=""")], props=["C08", "C10", "C09"]),
+    # ------------------------------------------------------------------ C09 wrong role / parameters
+    B("c09-fingerprint-omits-N", ["C09", "C10"], [(SP, """                  self.params.M.to_bytes(),
+                  self.params.N.to_bytes(),
+                  ]""", """                  self.params.M.to_bytes(),
+                  ]""")]),
+    B("c09-side-check-only-A", ["C09"], [(SP, """        if d["side"].encode("ascii") != self.side:
+            raise WrongSideSerialized""", """        if self.side == SideA and d["side"].encode("ascii") != self.side:
+            raise WrongSideSerialized""")]),
+    B("c09-fingerprint-comparison-inverted-prefix", ["C09"], [(SP, """        if d["hashed_params"] != self.hash_params():
+            err = ("SPAKE2.from_serialized() must be called with the same"
+                   "params= that were used to create the serialized data."
+                   "These are different somehow.")
+            raise WrongGroupError(err)
+        g = self.params.group
+        self._started = True
+        xy_scalar_bytes = unhexlify(d["xy_scalar"].encode("ascii"))
+        self.xy_scalar = g.bytes_to_scalar(xy_scalar_bytes)
+        self.xy_elem = g.Base.scalarmult(self.xy_scalar)
+        self.compute_outbound_message()
+        return self
+
+
+# applications""", """        if d["hashed_params"][:8] != self.hash_params()[:8]:
+            err = ("SPAKE2.from_serialized() must be called with the same"
+                   "params= that were used to create the serialized data."
+                   "These are different somehow.")
+            raise WrongGroupError(err)
+        g = self.params.group
+        self._started = True
+        xy_scalar_bytes = unhexlify(d["xy_scalar"].encode("ascii"))
+        self.xy_scalar = g.bytes_to_scalar(xy_scalar_bytes)
+        self.xy_elem = g.Base.scalarmult(self.xy_scalar)
+        self.compute_outbound_message()
+        return self
+
+
+# applications""")], note="only 32 bits of the fingerprint compared"),
+    B("c09-from-serialized-ignores-params", ["C09"], [(SP, "        return klass._deserialize_from_dict(d, params)", "        return klass._deserialize_from_dict(d, DefaultParams)")], tests="killed"),
+    B("c09-symmetric-side-check-removed", ["C09"], [(SP, """        if d["side"].encode("ascii") != SideSymmetric:
+            raise WrongSideSerialized
+""", "")], note="A/B state offered to Symmetric now fails with KeyError('idS') instead of WrongSideSerialized"),
+    B("c09-symmetric-fingerprint-uses-M", ["C09", "C10"], [(SP, """                  self.params.S.to_bytes(),
+                  ]""", """                  self.params.M.to_bytes(),
+                  ]""")]),
+    B("c09-wrong-group-only-warns", ["C09"], [(SP, """            raise WrongGroupError(err)
+        g = self.params.group
+        self._started = True
+        xy_scalar_bytes = unhexlify(d["xy_scalar"].encode("ascii"))
+        self.xy_scalar = g.bytes_to_scalar(xy_scalar_bytes)
+        self.xy_elem = g.Base.scalarmult(self.xy_scalar)
+        self.compute_outbound_message()
+        return self
+
+# add ECC""", """            if len(d["hashed_params"]) == 64: raise WrongGroupError(err)
+        g = self.params.group
+        self._started = True
+        xy_scalar_bytes = unhexlify(d["xy_scalar"].encode("ascii"))
+        self.xy_scalar = g.bytes_to_scalar(xy_scalar_bytes)
+        self.xy_elem = g.Base.scalarmult(self.xy_scalar)
+        self.compute_outbound_message()
+        return self
+
+# add ECC""")], note="mismatch raises only for well-formed digests"),
+    # ------------------------------------------------------------------ C10 persisted format
+    B("c10-key-renamed-both-sides", ["C10"], [(SP, """             "xy_scalar": hexlify(g.scalar_to_bytes(self.xy_scalar)).decode("ascii"),
+             }
+        return d
+
+    @classmethod
+    def _deserialize_from_dict(klass, d, params):
+        def _should_be_unused(count): raise NotImplementedError
+        self = klass(password=unhexlify(d["password"].encode("ascii")),
+                     idA=""", """             "scalar": hexlify(g.scalar_to_bytes(self.xy_scalar)).decode("ascii"),
+             }
+        return d
+
+    @classmethod
+    def _deserialize_from_dict(klass, d, params):
+        def _should_be_unused(count): raise NotImplementedError
+        self = klass(password=unhexlify(d["password"].encode("ascii")),
+                     idA="""), (SP, """        xy_scalar_bytes = unhexlify(d["xy_scalar"].encode("ascii"))
+        self.xy_scalar = g.bytes_to_scalar(xy_scalar_bytes)
+        self.xy_elem = g.Base.scalarmult(self.xy_scalar)
+        self.compute_outbound_message()
+        return self
+
+
+# applications""", """        xy_scalar_bytes = unhexlify(d["scalar"].encode("ascii"))
+        self.xy_scalar = g.bytes_to_scalar(xy_scalar_bytes)
+        self.xy_elem = g.Base.scalarmult(self.xy_scalar)
+        self.compute_outbound_message()
+        return self
+
+
+# applications""")], silent=["C08"]),
+    B("c10-password-base64", ["C10"], [(SP, """import os, json
+""", """import os, json, base64
+"""), (SP, """             "password": hexlify(self.pw).decode("ascii"),
+             "xy_scalar": hexlify(g.scalar_to_bytes(self.xy_scalar)).decode("ascii"),
+             }
+        return d
+
+    @classmethod
+    def _deserialize_from_dict(klass, d, params):
+        def _should_be_unused(count): raise NotImplementedError
+        self = klass(password=unhexlify(d["password"].encode("ascii")),
+                     idA=""", """             "password": base64.b64encode(self.pw).decode("ascii"),
+             "xy_scalar": hexlify(g.scalar_to_bytes(self.xy_scalar)).decode("ascii"),
+             }
+        return d
+
+    @classmethod
+    def _deserialize_from_dict(klass, d, params):
+        def _should_be_unused(count): raise NotImplementedError
+        self = klass(password=base64.b64decode(d["password"].encode("ascii")),
+                     idA=""")]),
+    B("c10-fingerprint-recipe-order", ["C10"], [(SP, """        pieces = [g.arbitrary_element(b"").to_bytes(),
+                  g.scalar_to_bytes(g.password_to_scalar(b"")),
+                  self.params.S.to_bytes(),
+                  ]""", """        pieces = [g.scalar_to_bytes(g.password_to_scalar(b"")),
+                  g.arbitrary_element(b"").to_bytes(),
+                  self.params.S.to_bytes(),
+                  ]""")], silent=["C08", "C09"]),
+    B("c10-scalar-stored-as-decimal", ["C10"], [(SP, """             "xy_scalar": hexlify(g.scalar_to_bytes(self.xy_scalar)).decode("ascii"),
+             }
+        return d
+
+    @classmethod
+    def _deserialize_from_dict(klass, d, params):
+        if d["side"].""", """             "xy_scalar": str(self.xy_scalar),
+             }
+        return d
+
+    @classmethod
+    def _deserialize_from_dict(klass, d, params):
+        if d["side"]."""), (SP, """        xy_scalar_bytes = unhexlify(d["xy_scalar"].encode("ascii"))
+        self.xy_scalar = g.bytes_to_scalar(xy_scalar_bytes)
+        self.xy_elem = g.Base.scalarmult(self.xy_scalar)
+        self.compute_outbound_message()
+        return self
+
+# add ECC""", """        self.xy_scalar = int(d["xy_scalar"])
+        self.xy_elem = g.Base.scalarmult(self.xy_scalar)
+        self.compute_outbound_message()
+        return self
+
+# add ECC""")]),
+    B("c10-extra-version-key-required", ["C10"], [(SP, """        d = json.loads(data.decode("ascii"))
+        return klass._deserialize_from_dict(d, params)""", """        d = json.loads(data.decode("ascii"))
+        if d["version"] != 1:
+            raise ValueError("unknown state version")
+        return klass._deserialize_from_dict(d, params)""")], tests="killed"),
+    N("c10-dict-constructor", [(SP, """        d = {"hashed_params": self.hash_params(),
+             "side": self.side.decode("ascii"),
+             "idS": hexlify(self.idSymmetric).decode("ascii"),
+             "password": hexlify(self.pw).decode("ascii"),
+             "xy_scalar": hexlify(g.scalar_to_bytes(self.xy_scalar)).decode("ascii"),
+             }""", """        d = dict(hashed_params=self.hash_params(),
+                 side=self.side.decode("ascii"),
+                 idS=hexlify(self.idSymmetric).decode("ascii"),
+                 password=hexlify(self.pw).decode("ascii"),
+                 xy_scalar=hexlify(g.scalar_to_bytes(self.xy_scalar)).decode("ascii"))""")]),
+    N("c10-bytes-hex-method", [(SP, """             "password": hexlify(self.pw).decode("ascii"),
+             "xy_scalar": hexlify(g.scalar_to_bytes(self.xy_scalar)).decode("ascii"),
+             }
+        return d
+
+    @classmethod
+    def _deserialize_from_dict(klass, d, params):
+        def""", """             "password": self.pw.hex(),
+             "xy_scalar": hexlify(g.scalar_to_bytes(self.xy_scalar)).decode("ascii"),
+             }
+        return d
+
+    @classmethod
+    def _deserialize_from_dict(klass, d, params):
+        def""")]),
     # ------------------------------------------------------------------ C16 isolation
     B("c16-blinding-cache-on-params", ["C16"], [(SP, """        pw_blinding = self.my_blinding().scalarmult(self.pw_scalar)
 """, """        cache = self.params.__dict__.setdefault("_blind_cache", {})
